@@ -93,6 +93,9 @@ N(k, n, st) == [k |-> k, n |-> n, st |-> st]          \* a note
 Op(o, a, via, s) == [op |-> o, a |-> a, via |-> via, s |-> s]
 
 RemoveEl(seq, x) == SelectSeq(seq, LAMBDA y : y # x)
+RemoveFirst(seq, x) ==       \* seq without its first occurrence of x
+    LET i == CHOOSE k \in 1..Len(seq) : seq[k] = x /\ \A j \in 1..(k - 1) : seq[j] # x IN
+    [k \in 1..(Len(seq) - 1) |-> IF k < i THEN seq[k] ELSE seq[k + 1]]
 InSeq(seq, x) == \E i \in 1..Len(seq) : seq[i] = x
 SetOfSeq(seq) == {seq[i] : i \in 1..Len(seq)}
 
@@ -109,7 +112,7 @@ M0 == [received |-> 0, dropped |-> 0, chDropped |-> 0, reduced |-> 0, effIssued 
 
 H0 == [before |-> {}, ret |-> {}, res |-> [a \in Acts |-> "-"], sawOpen |-> {}, recvd |-> <<>>,
        exitRecvd |-> 0, dropped |-> <<>>, red |-> <<>>, vetoed |-> {}, exp |-> <<>>,
-       ntf |-> [s \in Subs |-> <<>>], unsubd |-> [s \in Subs |-> 0], unsubRet |-> {},
+       ntf |-> [s \in Subs |-> <<>>], unsubd |-> [s \in Subs |-> 0], regs |-> [s \in Subs |-> 0], unsubRet |-> {},
        late |-> {}, mustSee |-> [s \in Subs |-> {}], stopRet |-> 0, stopBegun |-> FALSE,
        accBeforeStop |-> {}, skipped |-> 0, cleared |-> FALSE, lateReg |-> {},
        reads |-> <<>>, chain |-> [a \in Acts |-> <<>>], after |-> [a \in Acts |-> <<>>],
@@ -503,8 +506,10 @@ MStopPool(w) ==              \* stop / drop_store, store_impl.rs:519-527: take t
     ELSE OpEnd(AddNote(w, N("took", 0, <<>>)), "ok")
 
 MUnsubLocked(w, s, cont) ==  \* store_impl.rs:231-238, the subscribers lock is held by w.t
+    \* retain() visits the list in order and calls on_unsubscribe for *every* entry that is this
+    \* subscriber object: one registered twice is released twice by the first unsubscribe() ("uns.more")
     IF InSeq(w.subs, s)
-    THEN OnUnsub([w EXCEPT !.subs = RemoveEl(@, s), !.loc[w.t].cont = cont], s, "uns")
+    THEN OnUnsub([w EXCEPT !.subs = RemoveFirst(@, s), !.loc[w.t].cont = cont, !.loc[w.t].us = s], s, "uns")
     ELSE Goto([w EXCEPT !.loc[w.t].cont = cont], "uns.done")
 
 MIdle(w) ==
@@ -526,19 +531,19 @@ MIdle(w) ==
       [] o.op = "metrics" -> OpEnd(w, MetricsView(w))
       [] o.op = "add_sub" ->     \* store_impl.rs:225 (guard: subscribers lock free)
             OpEnd([w EXCEPT !.subs = Append(@, o.s),
-                            !.h.mustSee[o.s] = Acts \ w.h.sawOpen, !.h.registered = @ \cup {o.s},
+                            !.h.mustSee[o.s] = Acts \ w.h.sawOpen, !.h.registered = @ \cup {o.s}, !.h.regs[o.s] = @ + 1,
                             !.h.lateReg = IF w.h.cleared THEN @ \cup {o.s} ELSE @], "ok")
       [] o.op = "subscribed" ->  \* store_impl.rs:610-647: channel, thread, then add_subscriber
             OpEnd([w EXCEPT !.subs = Append(@, o.s),
                             !.chan[o.s].open = TRUE, !.chan[o.s].alive = TRUE,
                             !.pc[ChName(o.s)] = "ch.new",
-                            !.h.mustSee[o.s] = Acts \ w.h.sawOpen, !.h.registered = @ \cup {o.s},
+                            !.h.mustSee[o.s] = Acts \ w.h.sawOpen, !.h.registered = @ \cup {o.s}, !.h.regs[o.s] = @ + 1,
                             !.h.lateReg = IF w.h.cleared THEN @ \cup {o.s} ELSE @], "ok")
       [] o.op = "iter" ->        \* store_impl.rs:564-587
             OpEnd([w EXCEPT !.subs = Append(@, o.s),
                             !.chan[o.s].open = TRUE, !.chan[o.s].alive = TRUE,
                             !.chan[o.s].rx = TRUE, !.chan[o.s].held = TRUE,
-                            !.h.mustSee[o.s] = Acts \ w.h.sawOpen, !.h.registered = @ \cup {o.s},
+                            !.h.mustSee[o.s] = Acts \ w.h.sawOpen, !.h.registered = @ \cup {o.s}, !.h.regs[o.s] = @ + 1,
                             !.h.lateReg = IF w.h.cleared THEN @ \cup {o.s} ELSE @], "ok")
       [] o.op = "unsub" ->       \* (guard: subscribers lock free)
             MUnsubLocked([w EXCEPT !.lk["subs"] = t], o.s, "op")
@@ -642,7 +647,8 @@ Micro(w) ==
       [] p = "iter.drop" -> MIterDrop(w)
       [] p = "uns.done"  -> MUnsDone(w)
       [] p = "unsub.cb"  -> Goto(w, "unsub.ret")
-      [] p = "unsub.ret" -> IF L(w).uret = "uns" THEN Goto(w, "uns.done")
+      [] p = "uns.more"  -> MUnsubLocked(w, L(w).us, L(w).cont)
+      [] p = "unsub.ret" -> IF L(w).uret = "uns" THEN Goto(w, "uns.more")
                             ELSE Goto([w EXCEPT !.loc[w.t].k = @ + 1], "clr.call")
       [] p = "ctxdrop"   -> MCtxDrop(w)
       [] p = "chjoin"    -> MChJoin(w)
